@@ -171,26 +171,34 @@ func modelInput(l *Log, v *Variant, ro *runOut) string {
 }
 
 func genVariants(r *hx.Rng, l *Log, idx int, tier string) []*Variant {
+	// Every variant differs from its comparison partner in ONE dimension (props/C07.py, PAIRS):
+	//   v1, v2 vs v0: partition only;  v3 vs v1: isReplaying;  v4, v11 vs v1: engine;
+	//   v5, v6 vs v0 and v7 vs v6: position of the log relative to the wall clock;
+	//   v8 vs v0: nothing (second run in the same process);  v9, v10 vs v1: checkpoint at a cut,
+	//   restore into a new store, tail replayed;  v12 vs v0: node-local expiry sweep (local policy).
 	n := len(l.Reqs)
 	id := func(k int) string { return l.ID + ".v" + strconv.Itoa(k) }
 	mk := func(k int, eng string, part [][]Call) *Variant {
 		return &Variant{ID: id(k), Engine: eng, Part: part, Cut: -1, Expire: -1}
 	}
+	p1 := partRandom(r, n)
+	cut := r.Intn(n + 1)
+	sweep := r.Intn(n + 1)
 	var vs []*Variant
 	vs = append(vs, mk(0, "mem", partOne(n)))
-	vs = append(vs, mk(1, "mem", partRandom(r, n)))
+	vs = append(vs, mk(1, "mem", p1))
 	vs = append(vs, mk(2, "mem", partGiant(n, 200)))
-	v3 := mk(3, "mem", partRandom(r, n))
+	v3 := mk(3, "mem", p1)
 	v3.Replay = true
 	vs = append(vs, v3)
 	thorough := tier == "thorough"
 	if thorough || idx%4 == 0 {
-		vs = append(vs, mk(4, "pebble", partRandom(r, n)))
+		vs = append(vs, mk(4, "pebble", p1))
 	}
 	if thorough || idx%2 == 0 {
 		v5 := mk(5, "mem", partOne(n))
 		v5.Shift = 1
-		v6 := mk(6, "mem", partRandom(r, n))
+		v6 := mk(6, "mem", partOne(n))
 		v6.Shift = 2
 		v7 := mk(7, "mem", partOne(n))
 		v7.Shift = 3
@@ -200,15 +208,20 @@ func genVariants(r *hx.Rng, l *Log, idx int, tier string) []*Variant {
 		vs = append(vs, mk(8, "mem", partOne(n)))
 	}
 	if thorough || idx%4 == 3 {
-		v9 := mk(9, "mem", partRandom(r, n))
-		v9.Cut = r.Intn(n + 1)
+		v9 := mk(9, "mem", p1)
+		v9.Cut = cut
 		vs = append(vs, v9)
 	}
 	if thorough && idx%3 == 0 {
-		v10 := mk(10, "pebble", partRandom(r, n))
-		v10.Cut = r.Intn(n + 1)
+		v10 := mk(10, "pebble", p1)
+		v10.Cut = cut
 		vs = append(vs, v10)
-		vs = append(vs, mk(11, "rocksdb", partRandom(r, n)))
+		vs = append(vs, mk(11, "rocksdb", p1))
+	}
+	if l.Policy == "local" && haveSweep {
+		v12 := mk(12, "mem", partOne(n))
+		v12.Expire = sweep
+		vs = append(vs, v12)
 	}
 	return vs
 }
